@@ -965,18 +965,26 @@ def rule_guard_extra(prop, repo):
     if sq is None:
         R.fail_closed("%s:guard:sqrt" % prop, "Fq::sqrt not found")
     else:
-        tb = repo.tb(sq)
         ok = False
-        for bi in sorted(sq.reachable()):
-            t = sq.blocks[bi]["term"]
-            if t["k"] != "switch":
-                continue
-            d = tb.operand(t["discr"], bi, len(sq.blocks[bi]["stmts"]))
-            if d[0] == "call" and d[1].name == "lt" and len(d[2]) == 2:
-                l, r_ = strip(d[2][0]), strip(d[2][1])
-                xl, xr = is_canon_conv(l, "crate::fields::fp::Fq"), is_canon_conv(r_, "crate::fields::fp::Fq")
-                if xl is not None and xr is not None and xl[0] == "call" and xl[1].name == "neg" and strip(xl[2][0]) == xr:
-                    ok = True
+        # the comparison may sit in sqrt itself or in a helper of the same type that sqrt hands the root to
+        where = [sq]
+        for _, t in sq.calls():
+            cb = F.bodies.get((t.get("fn") or {}).get("res_def") or (t.get("fn") or {}).get("def"))
+            if cb is not None and cb.rec.get("impl_self_adt") == sq.rec.get("impl_self_adt") and not cb.impl_trait and cb.rec.get("output") == sq.rec.get("impl_self_adt") \
+                    and (cb.rec.get("span") or {}).get("file") == (sq.rec.get("span") or {}).get("file") and cb not in where:
+                where.append(cb)
+        for wb in where:
+            tb = repo.tb(wb)
+            for bi in sorted(wb.reachable()):
+                t = wb.blocks[bi]["term"]
+                if t["k"] != "switch":
+                    continue
+                d = tb.operand(t["discr"], bi, len(wb.blocks[bi]["stmts"]))
+                if d[0] == "call" and d[1].name == "lt" and len(d[2]) == 2:
+                    l, r_ = strip(d[2][0]), strip(d[2][1])
+                    xl, xr = is_canon_conv(l, "crate::fields::fp::Fq"), is_canon_conv(r_, "crate::fields::fp::Fq")
+                    if xl is not None and xr is not None and xl[0] == "call" and xl[1].name == "neg" and strip(xl[2][0]) == xr:
+                        ok = True
         R.check(ok, "%s:guard:sqrt-sign" % prop, "Fq::sqrt does not compare canonical(−root) < canonical(root) to pick the smaller root", sq.file_line(), sq.rec["path"],
                 sample={"fn": sq.rec["path"], "rule": "take −root ⇔ canonical(−root) < canonical(root)"})
     return R.finish()
